@@ -217,6 +217,17 @@ func eachSweepPath(c *Check, f func(jr *JobResult, name string, p *PathRec)) {
 	}
 }
 
+// addReadOnlyHelperJobs: the shared helpers that build "DNS names plus common name" lists by append are
+// run on their own on an arbitrary certificate (lists <= 2, with and without spare capacity) under the
+// write monitor.  They sit in the applicability tests of several lints, so a store into the certificate
+// there is also a channel between lints (C07).
+func addReadOnlyHelperJobs(c *Check) {
+	tune := func(cf *Config) { cf.ListBound = 2; cf.AltSolver, cf.AltTimeoutMs, cf.TimeoutMs = "cvc5", 8000, 3000 }
+	c.Add(&Job{Label: "helpers/CertificateSubjInTLD", Pkg: utilPkg, Func: "VerifC05SubjInTLD", MustCover: []string{"in the TLD", "not in the TLD"}, NoReplay: true, Tune: tune})
+	// (IsOnionV3Cert / IsOnionV2Cert - same append idiom - were tried on their own: the base32/regexp string
+	// constraints make every query cost 10-40 s in z3 and cvc5; they are covered through the lint sweep only)
+}
+
 var timeNowAllowed = map[string]bool{"w_sub_cert_aia_contains_internal_names": true, "w_smime_aia_contains_internal_names": true}
 
 func init() {
@@ -237,6 +248,7 @@ func init() {
 		c.Assume("effects inside stubbed standard-library callees are trusted to be pure; iteration orders explored: insertion order, reverse, rotation by one")
 		lints := addSweepJobs(c, "C05", nil)
 		c.Extra["lints_total"] = len(lints)
+		addReadOnlyHelperJobs(c)
 		c.Post = func(c *Check) {
 			sweepPost(c)
 			eachSweepPath(c, func(jr *JobResult, name string, p *PathRec) {
